@@ -71,6 +71,12 @@ def gen_case(tape, tier):
     cfg["reorder_inputs"] = bool(tape.coin(0.3, "reorder-inputs"))
     cfg["entry"] = tape.pick(["map", "map", "map_async"], "entry")  # (map_async only where an executor is in use)
     cfg["mistaken_call"] = bool(tape.coin(0.15, "mistaken-call"))
+    cfg["edit_results"] = bool(tape.coin(0.6, "edit-results"))
+    if cfg["edit_results"] and tape.coin(0.5, "a-list-valued-function"):
+        plain = [fd for fd in w["functions"] if len(fd["outputs"]) == 1 and fd.get("mapspec") and not fd["mapspec"].startswith("...")
+                 and not any(fd.get(k) for k in ("out_shape", "none_mod", "result_like", "data_like", "seq_out"))]
+        if plain:
+            tape.pick(plain, "list-valued-fn")["seq_out"] = "list"  # something for the caller to edit in place
     if executor["kind"] != "default-pool" and tape.coin(0.2, "resume-with-default-pool"):
         # first tried without a process pool (debugging), resumed with executor=None, parallel=True
         cfg["resume_executor"] = {"kind": "default-pool", "ex": {"mode": "process", "workers": 2, "start": "fifo", "pickle_at": "submit"}}
@@ -562,6 +568,33 @@ def _run_plan(w, cfg, plan, ref, tape, *, seen_digests=None):
                 with sim:
                     sim.kernel.run(loads)
                 simmanager.shutdown_all(sim)
+            if cfg.get("edit_results") and not viol:
+                # the caller post-processes what the resumed map returned - in place - and later maps the folder once more in
+                # the same process: the stored data, not the caller's edits, are what that map returns
+                import numpy as np
+
+                edited = 0
+                for o in all_outputs(w):
+                    outv = fin.res[o].output
+                    for el in (outv.reshape(-1) if isinstance(outv, np.ndarray) and outv.dtype == object else [outv]):
+                        if isinstance(el, list):
+                            el.append("<edited-by-the-caller>")
+                            edited += 1
+                if edited:
+                    again = run_attempt(w, cfg, root, tape, attempt=counter[0] + n_attempt + 1, cleanup=False, new_process=False, keep=keep)
+                    info["probes"]["results_edited_then_mapped_again"] = info["probes"].get("results_edited_then_mapped_again", 0) + 1
+                    if again.outcome != "ok":
+                        V("resume", f"map-after-edit-failed:{again.outcome}:{type(again.exc).__name__}", {"plan": plan, "exc": repr(again.exc)[:300]},
+                          _sig(again.exc, last, again))
+                    else:
+                        for o in all_outputs(w):
+                            if canon(again.res[o].output) != ref.R0[o]:
+                                V("resume", "later-map-returns-the-callers-edits", {"plan": plan, "output": o,
+                                  "got": repr(canon(again.res[o].output))[:300]}, _sig(None, last, again))
+                                break
+                        if again.calls and not viol:
+                            V("no-redo", "stored-element-recomputed", {"plan": plan, "call": repr(again.calls[0]), "where": "map after edit"},
+                              _sig(None, last, again))
             # 3. no stored work redone
             # (as a multiset: the attempts after the one that left n stored elements with arguments K behind may make
             # at most multiplicity(K) - n further calls with arguments K)
